@@ -97,6 +97,8 @@ class MemBlockingControl(BaseBlockingControl):
         :return: An iterator over invocations that are blocking others.
         :rtype: Iterator["InvocationId"]
         """
+        if max_num_invocations <= 0:
+            return
         with self._lock:
             candidates = list(self._ready)
         for inv_id in candidates:
